@@ -51,6 +51,7 @@ Empty == [
     peSynth |-> FALSE, cmpSnap |-> FALSE, lastSnap |-> NoSnap,
     deadBefore |-> {},
     \* executor sources: futures by id [s, want (scheduled / woken and not polled since), st, drops, v]
+    wakePending |-> FALSE,
     fut |-> <<>>, futReady |-> <<>>, polledNow |-> {}, earlyDrop |-> {}, wantAtWait |-> {}, limit |-> 1024,
     viol |-> {}
 ]
@@ -262,6 +263,8 @@ UpdOpret(sh, ev) ==
          [base EXCEPT !.handles[tgt] = @ - 1, !.closed[tgt] = sh.handles[tgt] = 1]
     [] ev.op = "send" /\ ok -> [base EXCEPT !.queue[tgt] = Append(@, co.m)]
     [] ev.op = "push" /\ ok -> [base EXCEPT !.queue[tgt] = Append(@, co.m)]
+    \* LoopSignal::wakeup(): the next wait returns at once (and reports nothing)
+    [] ev.op = "wakeup" /\ ok -> [base EXCEPT !.wakePending = TRUE]
     [] ev.op = "schedule" /\ ok ->
          [base EXCEPT !.fut = (co.f :> [s |-> tgt, want |-> TRUE, st |-> "live", v |-> 0,
                                         drops |-> IF co.f \in sh.earlyDrop THEN 1 ELSE 0]) @@ sh.fut]
@@ -400,10 +403,10 @@ Upd(sh, ev) ==
                                       !.expWait = LET armedDl == {sh.armLo[x] - ev.us : x \in {y \in sh.S : IsTimer(sh, y) /\ sh.life[y] = "in" /\ sh.en[y] /\ sh.armed[y]}}
                                                       tmo == IF ev.timeout < 0 THEN 2000000000 ELSE ev.timeout
                                                       dl == IF armedDl = {} THEN 2000000000 ELSE CHOOSE m \in armedDl : \A o \in armedDl : m <= o
-                                                  IN IF PendingNow(sh, ev.us) # {} \/ sh.synthWanted # {} \/ (\E x \in sh.S : sh.fuzzy[x]) THEN 0
+                                                  IN IF PendingNow(sh, ev.us) # {} \/ sh.synthWanted # {} \/ (\E x \in sh.S : sh.fuzzy[x]) \/ sh.wakePending THEN 0
                                                      ELSE Max2(0, Min2(tmo, dl)),
                                       !.earlyRet = FALSE]
-    [] ev.e = "batch"   -> [sh EXCEPT !.rearmed = {}, !.batchSeen = TRUE, !.batchUs = ev.us, !.batch = ev.keys,
+    [] ev.e = "batch"   -> [sh EXCEPT !.wakePending = FALSE, !.rearmed = {}, !.batchSeen = TRUE, !.batchUs = ev.us, !.batch = ev.keys,
                                       !.earlyRet = (sh.expWait < 2000000000 /\ ev.us - sh.waitUs < sh.expWait - 400),
                                       !.rdyAtBatch = {<<s, c>> \in UNION {{<<x, d>> : d \in 1..NCh(sh.decl[x])} : x \in sh.S} :
                                                          By(sh, s, c) > 0}]
@@ -484,8 +487,8 @@ ViolCb(sh, ev) ==
           \cup If(Kind(sh, s) = "ping", {<<"C03", "cb_without_ping">>})
           \cup If(Kind(sh, s) = "chan", {<<"C04", "delivery_not_head_of_queue">>})
           \cup If(Kind(sh, s) = "stream", {<<"C10", "stream_item_not_in_order_exactly_once">>}))
-  \cup If(IsTimer(sh, s) /\ ~sh.dlPending[s] /\ ev.p > sh.batchUs, {<<"C05", "fired_early">>})
-  \cup If(IsTimer(sh, s) /\ sh.dlPending[s] /\ sh.armed[s] /\ sh.armLo[s] > sh.batchUs, {<<"C05", "fired_early">>})
+  \cup If(IsTimer(sh, s) /\ ~sh.dlPending[s] /\ ev.p > sh.batchUs, {<<"C05", "fired_early">>, <<"C01", "timer_cb_without_expiry">>})
+  \cup If(IsTimer(sh, s) /\ sh.dlPending[s] /\ sh.armed[s] /\ sh.armLo[s] > sh.batchUs, {<<"C05", "fired_early">>, <<"C01", "timer_cb_without_expiry">>})
   \cup If(IsTimer(sh, s) /\ sh.armed[s] /\ sh.firedArm[s] = sh.armId[s], {<<"C05", "arming_fired_twice">>})
   \cup If(IsTimer(sh, s) /\ FiredDl(sh, ev) < sh.lastTimerDl, {<<"C05", "deadline_order">>})
   \cup If(sh.idlePhase, {<<"C13", "source_cb_after_idles">>})
